@@ -5,11 +5,11 @@ package main
 
 import (
 	"fmt"
+	"sort"
 
 	"golang.org/x/tools/go/ssa"
 )
 
-var guards = map[*Obj]*Obj{} // guarded object -> mutex object
 
 func (x *Exec) lockOp(st *State, recv Value, op string, in ssa.Instruction) {
 	p, ok := recv.(VPtr)
@@ -29,28 +29,37 @@ func (x *Exec) lockOp(st *State, recv Value, op string, in ssa.Instruction) {
 			c.Held = "R"
 		}
 		// havoc on acquire: other goroutines may have changed everything the lock guards
-		for g, m := range guards {
-			if m == p.Obj {
+		for _, g := range guardedBy(st, p.Obj) {
+			{
 				gc := st.mut(g)
 				gc.MV = FreshInt(g.Name + "@acquire")
 				if x.onAcquire != nil {
 					x.onAcquire(st, g)
+				}
+				if x.onAcquireState != nil && g.Kind == "map" {
+					x.onAcquireState(st, g)
 				}
 			}
 		}
 	case "Unlock":
 		x.obligeProps(st, "lock", name+"/held-W", BoolC(c.Held == "W"), "Unlock releases a held write lock", []string{"C19"})
 		c.Held = "none"
+		if x.onRelease != nil {
+			x.onRelease(st, p.Obj)
+		}
 	case "RUnlock":
 		x.obligeProps(st, "lock", name+"/held-R", BoolC(c.Held == "R"), "RUnlock releases a held read lock", []string{"C19"})
 		c.Held = "none"
+		if x.onRelease != nil {
+			x.onRelease(st, p.Obj)
+		}
 	}
 }
 
 // lockAccess checks that a guarded map is read under R or W and written under W.
 func (x *Exec) lockAccess(st *State, o *Obj, write bool, in ssa.Instruction) {
-	m, ok := guards[o]
-	if !ok {
+	m := o.Guard
+	if m == nil {
 		return
 	}
 	held := st.get(m).Held
@@ -68,4 +77,15 @@ func (x *Exec) lockReturn(st *State) {
 			x.obligeProps(st, "lock", "lock/released-at-return@"+pathTag(st), False, "every lock is released on every return path", []string{"C19"})
 		}
 	}
+}
+
+func guardedBy(st *State, mu *Obj) []*Obj {
+	var out []*Obj
+	for o := range st.heap {
+		if o.Guard == mu {
+			out = append(out, o)
+		}
+	}
+	sort.Slice(out, func(i, j int) bool { return out[i].ID < out[j].ID })
+	return out
 }
